@@ -62,12 +62,14 @@ def harnesses():
     # next to addmul's symbolic slices) - not registered; the bodies stay in c02.rs
     SMALLDOM = ("unit-limb sub-domain: every limb of one operand 0 or 1, the other operand FULL, one harness per operand order; UF layer, "
                 "exact on this sub-domain (all products fixed by the axioms 0*x = 0, 1*x = x)")
-    for b, tier in [(128, "quick"), (192, "thorough")]:   # per operand order: 192 bits 340-440 s; 256 bits: no result in 2400 s; 250/320/512: none in 1500 s (both orders)
+    # per operand order: 128 bits quick, 192 bits 340-440 s; 256 bits (4 limbs): unit operand on the left 2390 s, on the right no
+    # result in 2400 s; 250/320/512: none in 1500 s (both orders in one harness)
+    for b, tier, orders in [(128, "quick", (0, 1)), (192, "thorough", (0, 1)), (256, "thorough", (0,))]:
         l = nlimbs(b)
         w = 2 * l + 1
-        for sw in (0, 1):
+        for sw in orders:
             out.append(H("c02_mul_unit_%d_%s" % (b, "ba" if sw else "ab"), "C02", "c02::mul_unit::<%d,%d,%d,%d>" % (b, l, w, sw),
-                         unwind=w + 2, tier=tier, inst="Uint<%d,%d>" % (b, l), domain=SMALLDOM, free_bits=b + l, timeout=3600, stubs=UF,
+                         unwind=w + 2, tier=tier, inst="Uint<%d,%d>" % (b, l), domain=SMALLDOM, free_bits=b + l, timeout=7200, stubs=UF,
                          fns=["overflowing_mul", "wrapping_mul", "algorithms::addmul", "algorithms::addmul_n"],
                          role="c02::mul_unit", covers_required=["overflows", "fits-nonzero"]))
     for (b1, b2), tier in [((192, 192), "quick")]:   # 256x256: no result in 1500 s (probe)
